@@ -34,8 +34,34 @@ const nosyncPath = "github.com/gopherjs/gopherjs/nosync"
 func capName(n string) string { return strings.ToUpper(n[:1]) + n[1:] }
 
 func stubSource(name, prefix, extra string) string {
-	return fmt.Sprintf("package %s\n\nconst %[2]sC = 1\nconst %[2]sK = \"\"\nfunc %[2]sF() int { return 0 }\nfunc %[2]sS() string { return \"\" }\ntype %[2]sT struct{}\n%[3]s",
-		name, prefix, extra)
+	// Besides the plain members (constant, string constant, two functions, a type) every stub has
+	// what the chained and nested reference forms of uses.go need: a struct type with fields and
+	// methods on both receiver kinds, a constructor, a variable, an array, an interface, a generic
+	// type and a generic function.
+	return strings.ReplaceAll(`package `+name+`
+
+const @C = 1
+const @K = ""
+func @F() int { return 0 }
+func @S() string { return "" }
+type @T struct {
+	F    int
+	S    string
+	A    [2]int
+	Next *@T
+}
+func (@T) M() int { return 0 }
+func (@T) Str() string { return "" }
+func (*@T) PM() int { return 0 }
+func (*@T) Len() int { return 0 }
+func @New() *@T { return &@T{} }
+var @V @T
+var @Arr [2]@T
+type @I interface{ M() int }
+type @G[X any] struct{ V X }
+func (@G[X]) Get() (x X) { return }
+func @GF[X any](x X) X { return x }
+`, "@", prefix) + extra
 }
 
 type stubImporter map[string]*types.Package
